@@ -101,7 +101,7 @@ fn gen_dec_literal(r: &mut Rng) -> String {
             // digits fit 2^53, |exp| <= 22
             let m = r.below(1 << 53);
             let e = r.below(45) as i32 - 22;
-            format!("{}e{}", m, e)
+            format!("{}{}{}", m, *r.pick(&["e", "E"]), e)
         }
         5 => {
             // long digit strings with fraction and exponent
@@ -112,7 +112,7 @@ fn gen_dec_literal(r: &mut Rng) -> String {
             let (a, b) = s.split_at(cut);
             let a = if a.is_empty() { "0" } else { a };
             let e = r.below(700) as i32 - 350;
-            if b.is_empty() { format!("{}e{}", a, e) } else { format!("{}.{}{}{}", a, b, *r.pick(&["e", "E"]), e) }
+            if b.is_empty() { format!("{}{}{}", a, *r.pick(&["e", "E"]), e) } else { format!("{}.{}{}{}", a, b, *r.pick(&["e", "E"]), e) }
         }
         6 => {
             // halfway cases: 2^53 + 1 and neighbours scaled
@@ -908,6 +908,41 @@ pub fn run_c19(tier: &str, seed: u64, out: &mut Out) {
     let mut r = Rng::new(seed);
     let n = match tier { "thorough" => 60_000, "search" => 20_000, _ => 2_500 };
     let all = Ro::all();
+    // escapes at the numeric thresholds of the hex / octal / \u escape loops (24 bits, the
+    // scalar range, the surrogates), in every place an escape can stand, both dialects
+    {
+        let hexes = ["D7FF", "D800", "DFFF", "E000", "10FFFF", "110000", "FFFFFF", "1000000", "10000000", "1000000F", "0FFFFFF0", "7FFFFFFF", "FFFFFFFF", "100000000", "0000000041"];
+        let mut texts: Vec<(String, Ro)> = vec![];
+        for h in hexes {
+            texts.push((format!("\"a\\x{};b\"", h), Ro::DEFAULT));
+            texts.push((format!("#\\x{}", h), Ro::DEFAULT));
+            texts.push((format!("(#\\x{} 1)", h), Ro::DEFAULT));
+            texts.push((format!("\"a\\x{}\\ b\"", h), Ro::ELISP));
+            texts.push((format!("?\\x{}", h), Ro::ELISP));
+            texts.push((format!("\"\\U{:0>8}\"", &h[..h.len().min(8)]), Ro::ELISP));
+            texts.push((format!("?\\U{:0>8}", &h[..h.len().min(8)]), Ro::ELISP));
+            texts.push((format!("\"\\N{{U+{}}}\"", h), Ro::ELISP));
+        }
+        for o in ["177", "200", "377", "400", "7777777", "77777777", "100000000", "177777777", "37777777777", "40000000000"] {
+            texts.push((format!("\"\\{}\"", o), Ro::ELISP));
+            texts.push((format!("?\\{}", o), Ro::ELISP));
+        }
+        for u in ["D7FF", "D800", "DFFF", "E000", "FFFF", "0041"] {
+            texts.push((format!("\"\\u{}\"", u), Ro::ELISP));
+            texts.push((format!("?\\u{}", u), Ro::ELISP));
+        }
+        for (t, ro) in texts {
+            let text = t.into_bytes();
+            for src in srcs_for(&text) {
+                let case = format!("parse {} {} {}", src.name(), ro.code(), bytes_code(&text));
+                out.count("escape-threshold");
+                if let Ok(res) = parse_value(src, ro, &text) {
+                    out.case(case.clone(), vres_obs(&res), true);
+                    if let Err(e) = res { check_location(out, &text, &e, &case); }
+                }
+            }
+        }
+    }
     // locations and conversions on malformed streams
     for _ in 0..n {
         let text = mutate(gen_foreign(&mut r).as_bytes(), &mut r);
